@@ -108,7 +108,7 @@ func init() {
 		rule: "every 6th case runs on 2-3 nearly full simulated disks (writes are retried on another root or fail with ErrNoFreeSpace and are then not applied); cases: seeded sequential histories (10-40 steps) of Set/SetReader (5 reader shapes)/Create+Write*+Close/Get/GetReader/GetKeys/Delete over 2-5 keys (ASCII, multi-byte, long, with slash), contents 0..200 KiB incl. 2047-2049, 32767-32769, 65537; empty-key Set and never-written Get; collector (direct and timer), background windows and drains at boundaries; distinct = hash(ops, switch trace); non-trivial = some key is written at least twice (overwrite or delete/re-create)",
 		runs: [2]int{15000, 250000},
 		gen: func(r *simrt.Rand, idx int, tier string) SeqCase {
-			c := genSeqCase(r, seqProfile{prop: "C01", steps: [2]int{10, 40}, keys: [2]int{2, 5}, ctlWeight: 12, emptyKey: true, big: true, readback: "auto", deleteHeavy: r.Intn(2) == 0, held: 4})
+			c := genSeqCase(r, seqProfile{prop: "C01", steps: [2]int{10, 40}, keys: [2]int{2, 5}, ctlWeight: 12, emptyKey: true, big: true, readback: "auto", deleteHeavy: r.Intn(2) == 0, held: 4, heldW: 4})
 			if idx%6 == 5 {
 				// nearly full disks: writes are retried on other roots or fail with ErrNoFreeSpace
 				// (then they are not applied); whatever is reported successful must still read back exactly
@@ -131,7 +131,7 @@ func init() {
 				}
 				return genDeepChain(r, "C02", n)
 			}
-			return genSeqCase(r, seqProfile{prop: "C02", steps: [2]int{15, 60}, keys: [2]int{2, 4}, maxTx: 6, txWeight: 70, ctlWeight: 12, readback: "all", held: 3})
+			return genSeqCase(r, seqProfile{prop: "C02", steps: [2]int{15, 60}, keys: [2]int{2, 4}, maxTx: 6, txWeight: 70, ctlWeight: 12, readback: "all", held: 3, heldW: 3})
 		}})
 	Register(seqProp{id: "C03",
 		rule: "cases: as C02 but biased to overlapping write sets (2/3 of writes hit one key), several writes per key inside a transaction, deletes, autocommit writes between Begin and Commit; every 4th case injects a Badger update failure into one commit or autocommit write; checked: error class of every Commit/Rollback against the model (serialization error iff a written key has a newer committed version) and a read-back of all keys by all actors after every step; non-trivial = at least one transaction and two writes",
@@ -160,7 +160,7 @@ func init() {
 			if idx%4 == 3 {
 				return genDeepChain(r, "C09", 100+r.Intn(300))
 			}
-			return genSeqCase(r, seqProfile{prop: "C09", steps: [2]int{20, 70}, keys: [2]int{2, 3}, maxTx: 5, txWeight: 65, gcEvery: true, readback: "all", held: 6, big: true})
+			return genSeqCase(r, seqProfile{prop: "C09", steps: [2]int{20, 70}, keys: [2]int{2, 3}, maxTx: 5, txWeight: 65, gcEvery: true, readback: "all", held: 6, heldW: 3, big: true})
 		}}})
 	Register(seqProp{id: "C13",
 		rule: "cases: C02-style histories in which ended transaction handles (after Commit, failed Commit, Rollback, and after a reopen) keep being used for Get/GetReader/GetKeys/Set/SetReader/Create/Delete/Commit/Rollback in seeded order while observers of all levels are open; every late call except Rollback must return ErrTxNotFound (Rollback nil) and no observer's read-back may change; non-trivial = at least one late call was made",
@@ -180,7 +180,7 @@ func init() {
 			if idx%3 == 0 {
 				rp = 4
 			}
-			return genSeqCase(r, seqProfile{prop: "C14", steps: [2]int{15, 60}, keys: [2]int{2, 4}, maxTx: 4, txWeight: 55, ctlWeight: 8, reopen: rp, big: true, readback: "auto", walk: "final", deleteHeavy: r.Intn(2) == 0, overlap: r.Intn(2) == 0})
+			return genSeqCase(r, seqProfile{prop: "C14", steps: [2]int{15, 60}, keys: [2]int{2, 4}, maxTx: 4, txWeight: 55, ctlWeight: 8, reopen: rp, big: true, readback: "auto", walk: "final", deleteHeavy: r.Intn(2) == 0, overlap: r.Intn(2) == 0, heldW: 3})
 		}}})
 	Register(seqProp{id: "C17",
 		rule: "cases: 150-600 tiny writes interleaved with deletes, collector runs, drains and reopenings, directory limit at its clamp (config values 0-150 generated), 1-3 roots; after every step a walk of the roots: every regular file at root/<uuid>/<uuid>, a uuid directory per root once a write was attempted, no directory above the limit, a directory that was full and regained room receives a new file before the chance of a uniform choice among the directories below the limit missing it that long falls under 1e-12 (about 70 writes with 3 candidates, 210 with 8); non-trivial = at least 100 writes (directories rotate)",
